@@ -262,7 +262,8 @@ func runC20(c *runCtx) {
 	if c.tier == "thorough" {
 		n = 5000
 	}
-	srv := NewServer(filepath.Join(c.scratch, "main"))
+	// debug log level: formatting requests and values for log lines must not touch the data
+	srv := NewServer(filepath.Join(c.scratch, "main"), "--log-level", "debug")
 	defer srv.Close()
 	if err := srv.Start(); err != nil {
 		fmt.Println("CHECK-BROKEN cannot start the server:", err)
